@@ -57,8 +57,9 @@ fn key_cfgs<S: Sch>(dmax: usize) -> Vec<KeyCfg> {
     }
     for d in 1..=dmax {
         for s in 1..=d {
-            let top = if S::NAME.starts_with("MAR") { d } else { s };
-            for b in bound_lists(0, top, true) {
+            // Marlin serves enforced bounds up to max_degree; Sonic's trim must refuse a bound above the
+            // supported degree - those lists are enumerated too and the refusal is what is expected
+            for b in bound_lists(0, d, true) {
                 out.push(KeyCfg::uni(d, s, 1, b));
             }
         }
@@ -96,7 +97,14 @@ pub fn admission<S: UniSch>(rec: &mut Rec, dmax: usize) {
         let keys = match build_keys::<S>(&cfg, rec.seed) {
             Ok(k) => k,
             Err(o) => {
-                rec.violation(&format!("C04/{}/trim/valid-config", S::NAME), &todo[0].0, format!("trim failed: {}", o.short()));
+                let above = cfg.bounds.as_ref().map(|b| b.iter().any(|d| *d > cfg.sup)).unwrap_or(false);
+                if S::NAME.starts_with("SON") && above {
+                    // Sonic cannot serve a bound above the supported degree: refusing at trim is the right answer
+                    rec.class("trim-refused-bound-above-supported");
+                    rec.count_points(1);
+                } else {
+                    rec.violation(&format!("C04/{}/trim/valid-config", S::NAME), &todo[0].0, format!("trim failed: {}", o.short()));
+                }
                 continue;
             }
         };
